@@ -192,6 +192,7 @@ def main():
 
     broken = []   # human-readable reasons a tie / obligation is broken
     # ---- 1. translate
+    ref_same = {}
     try:
         import translate
         report = {}
@@ -199,6 +200,11 @@ def main():
             fname, text, br = translate.SECTIONS[sec]()
             translate.write_if_changed(os.path.join(translate.GEN, fname), text)
             report[sec] = br
+            try:
+                with open(os.path.join(C.LEAN, "Reference", fname)) as rf:
+                    ref_same[fname] = (rf.read() == text)
+            except FileNotFoundError:
+                ref_same[fname] = None
             for b in br:
                 broken.append("translator[{}]: {}".format(sec, b))
     except Exception:
@@ -339,6 +345,7 @@ def main():
             ] + list(getattr(mod, "TRUSTED", [])),
             "theorems": obligations,
             "translator_broken": report,
+            "generated_equals_reference": ref_same,
             "evaluations": int(res.get("evaluations", 0)),
             "distinct_nontrivial": len(nontriv) if not isinstance(nontriv, int) else nontriv,
             "rule": getattr(mod, "RULE", ""),
